@@ -15,6 +15,11 @@ CHAIN_NOTE = ("Chain.tla composes Minter.tla and Distributor.tla at block level 
               "Bounds: 3 minter x 3 distributor configurations, <= 2 (quick) / 3 (thorough) blocks, fees to the fee collector, one governance update, export at every point after the first block. "
               "No Tendermint: ABCI calls are made directly; TLC, the Json module and the harness projection are trusted.")
 TEXT = {
+    "C20": {
+        "technique": "TLA+ spec Hostile.tla: every message and query type of the four modules as a sequence of typed fields with abstract hostile value classes (nil, empty, negative, zero, huge, malformed, unresolved Any, references to existing / missing objects); TLC enumerates the full product per type against an empty and a populated state, the only allowed outcomes are ok / rejected; the harness concretises each combination and runs ValidateBasic, the handler and the gRPC query under recover(); the stateful walks of the other specifications add the panics reachable only through histories",
+        "level": "Exhaustive enumeration of the boundary-class product by the model checker (about 12 000 combinations x 2 states) with each one executed on the real code; a panic is reported with the message type and field classes that cause it, and a handler panic after ValidateBasic passed is flagged separately.",
+        "note": "One representative value per class; classes are listed in spec/mc/MBT_Hostile.tla. Panics behind a rejecting ValidateBasic are counted as handler-only and not reported. TLC, the Json module and the harness are trusted.",
+    },
     "C16": {
         "technique": "TLA+ spec Upgrade.tla: the v1.2.0 upgrade as a function on legacy-format states (LockedPreserved, HistoryPreserved, SolventAfter, AllOrNothing, AccountsKeepAmounts, ParamsPreserved checked by TLC over the enumerated pre-states); every pre-state is written to a real store in the legacy format (v2 proto types, x/params subspaces) and the real migrators and v120 functions are run on it, the complete post-state compared with the model",
         "level": "Model checking over the pre-upgrade state space (presence / absence of the hard-coded owner, pool and vesting type, locked in {sum-1, sum, sum+1, 2 sum}, sent / withdrawn histories, pre-existing pools with the new names, other owners using the renamed type, lineage traces, shifted accounts of every kind, legacy minter and distributor parameters) with conformance of the real upgrade code on every enumerated pre-state.",
